@@ -15,6 +15,7 @@ from __future__ import annotations
 import ast
 import copy
 import hashlib
+import re
 
 FUNC = (ast.FunctionDef, ast.AsyncFunctionDef)
 PURE_CALLS = {"len", "str", "int", "min", "max", "frozenset", "set", "tuple", "isinstance", "bool", "abs", "repr", "sorted", "list"}
@@ -1198,6 +1199,98 @@ def expand_bool_accumulate(modules, known, rep):
                 rep.other.append(f"`{x} = {x} {'or' if isinstance(st.value.op, ast.Or) else 'and'} ...` in {fn.name} read as a conditional assignment")
 
 
+# ---------------------------------------------------------------------------------------------- N29 tiny lists
+def unroll_small_lists(modules, known, rep):
+    """(a) a new local list that is created empty and then only appended to by plain statements of the same block, each appended value a
+    plain name nobody assigns afterwards, and that is used for nothing but ONE following `for x in L:` of that block, is the display of the
+    appended names; (b) a new `for x in [e]:` / `for x in (e,):` over one plain name, without break / continue / else, is `x = e; BODY`."""
+    for rel, sc, fn in all_functions(modules):
+        kh = _known_hashes(known, rel, sc, fn)
+        if kh is None:
+            continue
+        if any(isinstance(x, FUNC + (ast.Lambda,)) and x is not fn for x in ast.walk(fn)):
+            continue
+        changed = True
+        rounds = 0
+        while changed and rounds < 6:
+            changed = False
+            rounds += 1
+            for owner, fld, stmts in list(_blocks(fn)):
+                # (a)
+                for i, st in enumerate(stmts):
+                    if not (isinstance(st, ast.Assign) and len(st.targets) == 1 and isinstance(st.targets[0], ast.Name) and isinstance(st.value, ast.List) and not st.value.elts
+                            and _is_fresh(st, fn, kh)):
+                        continue
+                    L = st.targets[0].id
+                    uses = [n for n in ast.walk(fn) if isinstance(n, ast.Name) and n.id == L]
+                    apps, loop = [], None
+                    ok = True
+                    for k in range(i + 1, len(stmts)):
+                        s2 = stmts[k]
+                        mentions = any(isinstance(n, ast.Name) and n.id == L for n in ast.walk(s2))
+                        if not mentions:
+                            continue
+                        if isinstance(s2, ast.Expr) and isinstance(s2.value, ast.Call) and isinstance(s2.value.func, ast.Attribute) and s2.value.func.attr == "append" \
+                                and isinstance(s2.value.func.value, ast.Name) and s2.value.func.value.id == L and len(s2.value.args) == 1 and isinstance(s2.value.args[0], ast.Name) \
+                                and loop is None:
+                            apps.append((k, s2.value.args[0]))
+                        elif isinstance(s2, ast.For) and isinstance(s2.iter, ast.Name) and s2.iter.id == L and loop is None \
+                                and not any(isinstance(n, ast.Name) and n.id == L for b in s2.body + s2.orelse for n in ast.walk(b)):
+                            loop = (k, s2)
+                        else:
+                            ok = False
+                            break
+                    if not ok or loop is None or not apps or len(uses) != 1 + len(apps) + 1:
+                        continue
+                    # the appended names keep their value up to the loop
+                    lk = loop[0]
+                    stable = True
+                    for k, nm in apps:
+                        for s3 in stmts[k + 1:lk]:
+                            if any(isinstance(n, ast.Name) and n.id == nm.id and isinstance(n.ctx, (ast.Store, ast.Del)) for n in ast.walk(s3)):
+                                stable = False
+                    if not stable:
+                        continue
+                    loop[1].iter = ast.copy_location(ast.List([ast.Name(nm.id, ast.Load()) for _, nm in apps], ast.Load()), loop[1].iter)
+                    ast.fix_missing_locations(loop[1])
+                    for k, _ in reversed(apps):
+                        del stmts[k]
+                    del stmts[i]
+                    rep.other.append(f"list `{L}` built by {len(apps)} append(s) in {fn.name} read as a display at its loop")
+                    changed = True
+                    break
+                if changed:
+                    break
+                # (b)
+                for i, st in enumerate(stmts):
+                    if isinstance(st, ast.For) and not st.orelse and isinstance(st.target, ast.Name) and isinstance(st.iter, (ast.List, ast.Tuple)) and len(st.iter.elts) == 1 \
+                            and isinstance(st.iter.elts[0], ast.Name) and _is_fresh(st, fn, kh) \
+                            and not any(isinstance(n, (ast.Break, ast.Continue)) for b in st.body for n in ast.walk(b)):
+                        e = st.iter.elts[0]
+                        first = ast.copy_location(ast.Assign([ast.Name(st.target.id, ast.Store())], e, lineno=st.lineno), st)
+                        ast.fix_missing_locations(first)
+                        stmts[i:i + 1] = ([first] if e.id != st.target.id else []) + st.body
+                        rep.other.append(f"loop over the one-element display at {rel}:{st.lineno} read as its body")
+                        changed = True
+                        break
+                if changed:
+                    break
+
+
+def fold_constant_tests(modules, known, rep):
+    """`if` statements whose test the earlier passes have turned into a constant (`None is not None and ...` after a default argument
+    was put in) are the branch that is taken; a lone `pass` left among other statements goes."""
+    for rel, sc, fn in all_functions(modules):
+        if _known_hashes(known, rel, sc, fn) is None:
+            continue
+        for owner, fld, stmts in list(_blocks(fn)):
+            new = _simplify(list(stmts))
+            new = [x for x in new if not isinstance(x, ast.Pass)] or new[:1]
+            if len(new) != len(stmts) or any(a is not b for a, b in zip(new, stmts)):
+                stmts[:] = new or [ast.Pass()]
+        ast.fix_missing_locations(fn)
+
+
 # ---------------------------------------------------------------------------------------------- N24 augmented assignment
 def expand_augassign(modules, known, rep):
     """a new `x -= c` / `x += c` on a plain local with a numeric constant is `x = x - c` (no in-place form exists for numbers)"""
@@ -1321,6 +1414,16 @@ def thread_none_sentinels(modules, known, rep):
                     def stores_t(node):
                         return any(isinstance(n, ast.Name) and n.id == t and isinstance(n.ctx, (ast.Store, ast.Del)) for n in ast.walk(node))
 
+                    def refine(state, test, truth):
+                        # what leaving the test this way says about t: an instance of something / truthy / `is not None` -> not None
+                        from .guards import facts as _facts
+                        for a_, tv_ in _facts(test, truth):
+                            if tv_ and (re.fullmatch(rf"isinstance\({re.escape(t)}, .+\)", a_) or a_ == t or a_ == f"{t} is not None"):
+                                return "nonnull"
+                            if tv_ and a_ == f"{t} is None":
+                                return "null"
+                        return state
+
                     def thread(block, state):
                         nonlocal failed, leaves
                         out = []
@@ -1332,8 +1435,8 @@ def thread_none_sentinels(modules, known, rep):
                                 continue
                             if stores_t(st):
                                 if isinstance(st, ast.If) and st is block[-1] and not stores_t(st.test):
-                                    st.body = thread(st.body, state)
-                                    st.orelse = thread(st.orelse, state)
+                                    st.body = thread(st.body, refine(state, st.test, True))
+                                    st.orelse = thread(st.orelse, refine(state, st.test, False))
                                     out.append(st)
                                     return out
                                 if isinstance(st, ast.Try) and st is block[-1] and not st.finalbody and not any(stores_t(b) for b in st.body):
